@@ -220,6 +220,24 @@ def run_property(prop, tier, seed):
                 for v in info.get('violations', []):
                     violations.append((n, v))
                 extra_info[n] = {k: v for (k, v) in info.items() if k not in ('undecided', 'violations')}
+    # ---- known findings that are identified by a concrete input: replay it on the real code
+    for k in known.get('findings', []):
+        if k.get('property') != prop or 'replay' not in k:
+            continue
+        from vf import replaydrv
+        rr = replaydrv.run(k['replay']['driver'], k['replay']['args'])
+        if not rr.get('ok'):
+            undecided.append('known finding could not be replayed: %s' % rr.get('error'))
+            continue
+        out = rr['stdout'].strip()
+        if out == k['replay']['defective_output'].strip():
+            known_hits.append((k, {'obligation': 'replay:' + ' '.join(k['replay']['args'])}))
+        elif out == k['replay']['expected_output'].strip():
+            notes.append('NOTE known finding no longer reproduces (now as the property requires): %s' % k.get('what'))
+        else:
+            violations.append(('replay', {'obligation': 'replay:' + ' '.join(k['replay']['args']), 'kind': 'replay', 'rendered': 'expected %r, recorded defect %r, observed %r' % (
+                k['replay']['expected_output'], k['replay']['defective_output'], out), 'spans': [],
+                'witness': {'confirmed_on_real_code': True, 'input': k['replay']['args'], 'observed': out, 'replay': {'driver': k['replay']['driver'], 'args': k['replay']['args']}}}))
     wall = time.time() - t0
     # ---- report
     for nmsg in notes:
@@ -234,7 +252,7 @@ def run_property(prop, tier, seed):
             path = os.path.join(REPLAYS, '%s-%d.json' % (prop, i))
             witness = f.get('witness')
             if witness is None:
-                witness = extras.find_witness(units[n], f, prop)
+                witness = extras.find_witness(units[n], f, prop) if n in units else None
             rep = {'property': prop, 'unit': n, 'obligation': f['obligation'], 'kind': f['kind'], 'exit': f.get('exit'), 'source': f.get('src'),
                    'verifier': 'verus', 'verifier_output': f.get('rendered', ''), 'spans': f.get('spans', []),
                    'failing_input': witness, 'replay_cmd': 'python3 %s --replay %s' % (os.path.join(HERE, 'check.py'), path)}
